@@ -4,4 +4,5 @@ import BalmProofs.AttrTest
 import BalmProofs.Bfs
 import BalmProofs.Drivers
 import BalmProofs.ReachSpec
+import BalmProofs.SymLoopSpec
 /-! Property C05: theorems are listed in `obligations.json`; see DESIGN.md section 6. -/
